@@ -148,6 +148,49 @@ theorem causality_x2y_nonneg (hγ : 0 < γ) (hpd : 0 ≤ σ * γ - υ * υ) (hH 
     rw [this]; exact div_nonneg hpd hγ.le
   exact causality_nonneg _ _ hay (mul_nonneg hg2 (Complex.normSq_nonneg _))
 
+/-- rescaling the innovation covariance leaves the "hatted" transfer functions alone (`υ/σ`, `υ/γ` are ratios) -/
+lemma HxxHat_scale (t : ℝ) (ht : t ≠ 0) : HxxHat H (t * σ) (t * υ) = HxxHat H σ υ := by
+  unfold HxxHat
+  have : ((t * υ : ℝ) : ℂ) / ((t * σ : ℝ) : ℂ) = (υ : ℂ) / (σ : ℂ) := by
+    push_cast; exact mul_div_mul_left _ _ (by exact_mod_cast ht)
+  rw [this]
+
+lemma HyyHat_scale (t : ℝ) (ht : t ≠ 0) : HyyHat H (t * υ) (t * γ) = HyyHat H υ γ := by
+  unfold HyyHat
+  have : ((t * υ : ℝ) : ℂ) / ((t * γ : ℝ) : ℂ) = (υ : ℂ) / (γ : ℂ) := by
+    push_cast; exact mul_div_mul_left _ _ (by exact_mod_cast ht)
+  rw [this]
+
+/-- **C12 scale invariance.** The directional causality spectra are homogeneous of degree 0 in the innovation
+covariance: `Σ ↦ t·Σ` (`t ≠ 0`; amplitudes of the data 1e-150 … 1e150) leaves both ratios — hence `f_{y→x}` and
+`f_{x→y}` — unchanged, with no threshold anywhere in the formula. -/
+theorem causality_scale_invariant (t : ℝ) (ht : t ≠ 0) :
+    (grangerAt H (covR (t * σ) (t * υ) (t * γ))).rY2X = (grangerAt H (covR σ υ γ)).rY2X ∧
+    (grangerAt H (covR (t * σ) (t * υ) (t * γ))).rX2Y = (grangerAt H (covR σ υ γ)).rX2Y := by
+  have e1 : t * γ - t * υ * (t * υ) / (t * σ) = t * (γ - υ * υ / σ) := by
+    have : t * υ * (t * υ) / (t * σ) = t * (υ * υ / σ) := by
+      rw [show t * υ * (t * υ) = t * (t * (υ * υ)) by ring, mul_div_mul_left _ _ ht]; ring
+    rw [this]; ring
+  have e2 : t * σ - t * υ * (t * υ) / (t * γ) = t * (σ - υ * υ / γ) := by
+    have : t * υ * (t * υ) / (t * γ) = t * (υ * υ / γ) := by
+      rw [show t * υ * (t * υ) = t * (t * (υ * υ)) by ring, mul_div_mul_left _ _ ht]; ring
+    rw [this]; ring
+  constructor
+  · rw [gc_rY2X, gc_rY2X]
+    congr 1
+    unfold SxxR axR
+    rw [HxxHat_scale H σ υ t ht, e1,
+      show t * σ * Complex.normSq (HxxHat H σ υ) + t * (γ - υ * υ / σ) * Complex.normSq H.m01
+        = t * (σ * Complex.normSq (HxxHat H σ υ) + (γ - υ * υ / σ) * Complex.normSq H.m01) by ring,
+      mul_assoc, mul_div_mul_left _ _ ht]
+  · rw [gc_rX2Y, gc_rX2Y]
+    congr 1
+    unfold SyyR ayR
+    rw [HyyHat_scale H υ γ t ht, e2,
+      show t * γ * Complex.normSq (HyyHat H υ γ) + t * (σ - υ * υ / γ) * Complex.normSq H.m10
+        = t * (γ * Complex.normSq (HyyHat H υ γ) + (σ - υ * υ / γ) * Complex.normSq H.m10) by ring,
+      mul_assoc, mul_div_mul_left _ _ ht]
+
 /-- **C12 decomposition.** `f_{x→y} + f_{y→x} + f_{x·y} = −log(1 − coherence)`, with the
 coherence computed by `coherence_from_spectral` from the returned spectral matrix. -/
 theorem decomposition (hax : 0 < axR H σ υ) (hay : 0 < ayR H υ γ)
